@@ -222,6 +222,10 @@ func evalC19Sel(c c19Sel, o *Obs) error {
 func genC19Sel(t *rapid.T) c19Sel {
 	c := c19Sel{Selector: rapid.SampledFrom([]string{"minindex", "minnumber", "maxvalueage", "minpriority", "minpriority"}).Draw(t, "sel")}
 	n := rapid.IntRange(0, 12).Draw(t, "n")
+	long := rapid.IntRange(0, 9).Draw(t, "long") == 0 && c.Selector != "minpriority" // (that selector's oracle enumerates)
+	if long {                                                                        // a wallet's worth of coins
+		n = rapid.SampledFrom([]int{63, 64, 65, 100, 128, 200, 300}).Draw(t, "nlong")
+	}
 	large := rapid.IntRange(0, 5).Draw(t, "large") == 0
 	capped := rapid.IntRange(0, 3).Draw(t, "capped") == 0
 	huge := rapid.IntRange(0, 5).Draw(t, "huge") == 0
@@ -246,6 +250,24 @@ func genC19Sel(t *rapid.T) c19Sel {
 	c.MaxInputs = rapid.IntRange(0, 13).Draw(t, "maxin")
 	if rapid.IntRange(0, 9).Draw(t, "maxinbig") == 0 { // "no limit"
 		c.MaxInputs = rapid.SampledFrom([]int{math.MaxInt32, math.MaxInt64, math.MaxInt64 - 1, 1 << 40}).Draw(t, "maxinhuge")
+	}
+	if long {
+		c.MaxInputs = rapid.IntRange(1, n/4).Draw(t, "maxinlong")
+		if rapid.Bool().Draw(t, "reachable") && n > 0 { // a target the most valuable few can pay
+			top := make([]int64, 0, n)
+			for _, cs := range c.Coins {
+				top = append(top, cs.V)
+			}
+			sort.Slice(top, func(i, j int) bool { return top[i] > top[j] })
+			var s int64
+			for i := 0; i < c.MaxInputs && i < len(top); i++ {
+				s += top[i]
+			}
+			c.Target = s - int64(rapid.IntRange(0, 2).Draw(t, "slack"))
+			if c.Target < 0 {
+				c.Target = 0
+			}
+		}
 	}
 	c.MinChange = int64(rapid.IntRange(0, 4).Draw(t, "minchange"))
 	c.MinAvg = int64(rapid.IntRange(0, 30).Draw(t, "minavg"))
